@@ -335,6 +335,39 @@ func init() {
 		Gen:  func(t *rapid.T) *Case { return GenCase(t, p36) },
 		Rule: "managed-mode DB with real compactors: clients open transactions at arbitrary read timestamps (1-90), commit with arbitrary non-monotonic CommitAt timestamps (kept distinct and above the current discard timestamp), write through NewManagedWriteBatch (SetEntryAt/DeleteAt with per-entry versions) and NewWriteBatchAt, and raise SetDiscardTs; every Get at a read timestamp >= the discard timestamp must return the newest write at or below it among acknowledged commits (a commit still in flight may or may not be visible), with Item.Version() equal to the caller's timestamp; at quiescence all keys are re-read at 7 timestamps from the discard timestamp upward. non-trivial = run with >=1 checked read that found a value",
 	})
+	// C15 value-log GC
+	p15 := profT("G-C15")
+	p15.Compaction = true
+	p15.WGC = 10
+	p15.MaxOps = 30
+	p15.MaxKeys = 8
+	p15.WDel = 4
+	p15.WLongTxn = 4
+	p15.Groups = [][]string{nil, {"client", "gc", "compactor", "flusher", "subcompact", "builder"}, {"client", "gc", "compactor", "flusher", "subcompact", "builder", "txn", "writer", "doWrites"}}
+	register(&Scenario{Prop: "C15", Family: "G", Level: "exploration", Profile: p15, NonTrivialProbe: "gc_rewrote_file",
+		Gen: func(t *rapid.T) *Case {
+			c := GenCase(t, p15)
+			// values must live in the value log and its files must rotate often
+			c.Cfg.ValueThreshold = int64(rapid.SampledFrom([]int{16, 32, 64}).Draw(t, "vt_gc"))
+			c.Cfg.VLogPercentile = 0
+			c.Cfg.ValueLogMaxEntries = uint32(rapid.SampledFrom([]int{3, 5, 10, 20}).Draw(t, "vlog_entries_gc"))
+			c.Cfg.PrefillVlog = true
+			return c
+		},
+		Rule: "DB pre-filled with versions and tombstones whose values live in a value log that rotates every 3-20 entries, real compactors producing discard statistics; clients run RunValueLogGC(0.01-0.9) with schedule points after the pick, at every scanned entry, after the scan, per write-back batch and before/after file deletion, interleaved with commits, deletes, iterators and transactions that hold an Item from Get or from an open iterator and read its value later; oracles: every read equals the MVCC model (nothing changed, lost or resurrected), held items stay readable with the written value while their transaction is open. non-trivial = run in which GC rewrote >=1 file",
+	})
+	// C29 drops
+	p29 := profT("K-C29")
+	p29.Compaction = true
+	p29.WDrop = 10
+	p29.MaxOps = 24
+	p29.MaxKeys = 8
+	p29.WIter = 1
+	p29.Groups = [][]string{nil, {"client", "compactor", "flusher", "subcompact", "builder", "txn", "writer", "doWrites"}}
+	register(&Scenario{Prop: "C29", Family: "K", Level: "exploration", Profile: p29, NonTrivialProbe: "drops_done",
+		Gen:  func(t *rapid.T) *Case { return GenCase(t, p29) },
+		Rule: "data spread over memtables, L0, deeper levels and value log (pre-fill + real compactors); clients run DropPrefix (1-2 prefixes: a key or its 1-2 byte prefix) and DropAll concurrently with writers; oracles: right after a drop returns no key under the prefixes is visible unless written after the drop, commits concurrent with a drop either fail with the blocked-writes error or are applied wholly (model = everything committed before the drop returned is gone for the prefixes), other keys keep equalling the model, writes are accepted afterwards, and the final close/re-open shows the same. non-trivial = run in which >=1 drop completed",
+	})
 	// C04 own writes
 	p4 := profT("T-C04")
 	p4.WIter = 5
